@@ -40,8 +40,9 @@ type kvCfg struct {
 	Cache [3]int `json:"cache"` // 0 = default sizes
 }
 
-var kvKeys = []string{"a", "ab", "abc", "b", "ba", "", "c"}
-var kvPrefixes = []string{"", "a", "ab", "b", "c", "zz"}
+// keys are bytes, not text: "\xff\x01" is not valid UTF-8 (EVM storage slots are 32 binary bytes)
+var kvKeys = []string{"a", "ab", "abc", "b", "ba", "", "c", "\xff\x01", "\xff"}
+var kvPrefixes = []string{"", "a", "ab", "b", "c", "zz", "\xff"}
 
 func kvAddr(i int) *types.Address {
 	return types.NewAddress([]byte(fmt.Sprintf("kv-account-%02d........", i))[:20])
